@@ -62,6 +62,7 @@ type interpreter struct {
 	readAts   int
 	panicSite string
 	panicPos  string
+	panicInIce bool
 	top       *frame
 	depth     int
 }
@@ -94,7 +95,8 @@ type frame struct {
 	caller           *frame
 	fn               *ssa.Function
 	block, prevBlock *ssa.BasicBlock
-	env              map[ssa.Value]value // dynamic values of SSA variables
+	env              []value          // dynamic values of SSA variables, indexed by slot
+	slots            map[ssa.Value]int // slot numbers of this function's values
 	locals           []value
 	defers           *deferred
 	result           value
@@ -117,8 +119,8 @@ func (fr *frame) get(key ssa.Value) value {
 	case *ssa.Global:
 		return fr.i.global(key)
 	}
-	if r, ok := fr.env[key]; ok {
-		return r
+	if k, ok := fr.slots[key]; ok {
+		return fr.env[k]
 	}
 	panic(fmt.Sprintf("get: no value for %T: %v", key, key.Name()))
 }
@@ -184,35 +186,35 @@ func visitInstr(fr *frame, instr ssa.Instruction) continuation {
 		// no-op
 
 	case *ssa.UnOp:
-		fr.env[instr] = unop(fr.i, instr, fr.get(instr.X))
+		fr.env[fr.slots[instr]] = unop(fr.i, instr, fr.get(instr.X))
 
 	case *ssa.BinOp:
-		fr.env[instr] = binop(fr.i, instr.Op, instr.X.Type(), fr.get(instr.X), fr.get(instr.Y))
+		fr.env[fr.slots[instr]] = binop(fr.i, instr.Op, instr.X.Type(), fr.get(instr.X), fr.get(instr.Y))
 
 	case *ssa.Call:
 		fn, args := prepareCall(fr, &instr.Call)
-		fr.env[instr] = call(fr.i, fr, instr.Pos(), fn, args)
+		fr.env[fr.slots[instr]] = call(fr.i, fr, instr.Pos(), fn, args)
 
 	case *ssa.ChangeInterface:
-		fr.env[instr] = fr.get(instr.X)
+		fr.env[fr.slots[instr]] = fr.get(instr.X)
 
 	case *ssa.ChangeType:
-		fr.env[instr] = fr.get(instr.X) // (can't fail)
+		fr.env[fr.slots[instr]] = fr.get(instr.X) // (can't fail)
 
 	case *ssa.Convert:
-		fr.env[instr] = conv(fr.i, instr.Type(), instr.X.Type(), fr.get(instr.X))
+		fr.env[fr.slots[instr]] = conv(fr.i, instr.Type(), instr.X.Type(), fr.get(instr.X))
 
 	case *ssa.SliceToArrayPointer:
-		fr.env[instr] = sliceToArrayPointer(instr.Type(), instr.X.Type(), fr.get(instr.X))
+		fr.env[fr.slots[instr]] = sliceToArrayPointer(instr.Type(), instr.X.Type(), fr.get(instr.X))
 
 	case *ssa.MakeInterface:
-		fr.env[instr] = iface{t: instr.X.Type(), v: fr.get(instr.X)}
+		fr.env[fr.slots[instr]] = iface{t: instr.X.Type(), v: fr.get(instr.X)}
 
 	case *ssa.Extract:
-		fr.env[instr] = fr.get(instr.Tuple).(tuple)[instr.Index]
+		fr.env[fr.slots[instr]] = fr.get(instr.Tuple).(tuple)[instr.Index]
 
 	case *ssa.Slice:
-		fr.env[instr] = slice(fr.i, fr.get(instr.X), fr.get(instr.Low), fr.get(instr.High), fr.get(instr.Max))
+		fr.env[fr.slots[instr]] = slice(fr.i, fr.get(instr.X), fr.get(instr.Low), fr.get(instr.High), fr.get(instr.Max))
 
 	case *ssa.Return:
 		switch len(instr.Results) {
@@ -286,17 +288,17 @@ func visitInstr(fr *frame, instr ssa.Instruction) continuation {
 		panic(engineError{"go statement not supported"})
 
 	case *ssa.MakeChan:
-		fr.env[instr] = make(chan value, fr.i.concInt(fr.get(instr.Size), "makechan"))
+		fr.env[fr.slots[instr]] = make(chan value, fr.i.concInt(fr.get(instr.Size), "makechan"))
 
 	case *ssa.Alloc:
 		var addr *value
 		if instr.Heap {
 			// new
 			addr = new(value)
-			fr.env[instr] = addr
+			fr.env[fr.slots[instr]] = addr
 		} else {
 			// local
-			addr = fr.env[instr].(*value)
+			addr = fr.env[fr.slots[instr]].(*value)
 		}
 		*addr = zero(mustDeref(instr.Type()))
 
@@ -311,40 +313,40 @@ func visitInstr(fr *frame, instr ssa.Instruction) continuation {
 		for i := range slice {
 			slice[i] = zero(tElt)
 		}
-		fr.env[instr] = slice[:n]
+		fr.env[fr.slots[instr]] = slice[:n]
 
 	case *ssa.MakeMap:
-		fr.env[instr] = makeMap(instr.Type().Underlying().(*types.Map).Key())
+		fr.env[fr.slots[instr]] = makeMap(instr.Type().Underlying().(*types.Map).Key())
 
 	case *ssa.Range:
-		fr.env[instr] = rangeIter(fr.i, fr.get(instr.X), instr.X.Type())
+		fr.env[fr.slots[instr]] = rangeIter(fr.i, fr.get(instr.X), instr.X.Type())
 
 	case *ssa.Next:
-		fr.env[instr] = fr.get(instr.Iter).(iter).next()
+		fr.env[fr.slots[instr]] = fr.get(instr.Iter).(iter).next()
 
 	case *ssa.FieldAddr:
 		p := fr.get(instr.X).(*value)
 		if p == nil {
 			panic(targetRuntimeError("invalid memory address or nil pointer dereference"))
 		}
-		fr.env[instr] = &(*p).(structure)[instr.Field]
+		fr.env[fr.slots[instr]] = &(*p).(structure)[instr.Field]
 
 	case *ssa.Field:
-		fr.env[instr] = fr.get(instr.X).(structure)[instr.Field]
+		fr.env[fr.slots[instr]] = fr.get(instr.X).(structure)[instr.Field]
 
 	case *ssa.IndexAddr:
 		x := fr.get(instr.X)
 		switch x := x.(type) {
 		case []value:
 			idx := fr.i.index(fr.get(instr.Index), len(x))
-			fr.env[instr] = &x[idx]
+			fr.env[fr.slots[instr]] = &x[idx]
 		case *value: // *array
 			if x == nil {
 				panic(targetRuntimeError("invalid memory address or nil pointer dereference"))
 			}
 			a := (*x).(array)
 			idx := fr.i.index(fr.get(instr.Index), len(a))
-			fr.env[instr] = &a[idx]
+			fr.env[fr.slots[instr]] = &a[idx]
 		default:
 			panic(fmt.Sprintf("unexpected x type in IndexAddr: %T", x))
 		}
@@ -353,15 +355,15 @@ func visitInstr(fr *frame, instr ssa.Instruction) continuation {
 		x := fr.get(instr.X)
 		switch x := x.(type) {
 		case array:
-			fr.env[instr] = x[fr.i.index(fr.get(instr.Index), len(x))]
+			fr.env[fr.slots[instr]] = x[fr.i.index(fr.get(instr.Index), len(x))]
 		case string:
-			fr.env[instr] = x[fr.i.index(fr.get(instr.Index), len(x))]
+			fr.env[fr.slots[instr]] = x[fr.i.index(fr.get(instr.Index), len(x))]
 		default:
 			panic(fmt.Sprintf("unexpected x type in Index: %T", x))
 		}
 
 	case *ssa.Lookup:
-		fr.env[instr] = lookup(fr.i, instr, fr.get(instr.X), fr.get(instr.Index))
+		fr.env[fr.slots[instr]] = lookup(fr.i, instr, fr.get(instr.X), fr.get(instr.Index))
 
 	case *ssa.MapUpdate:
 		m := fr.get(instr.Map).(*omap)
@@ -371,20 +373,20 @@ func visitInstr(fr *frame, instr ssa.Instruction) continuation {
 		m.insert(fr.i.mapKey(fr.get(instr.Key)), fr.get(instr.Value))
 
 	case *ssa.TypeAssert:
-		fr.env[instr] = typeAssert(fr.i, instr, fr.get(instr.X).(iface))
+		fr.env[fr.slots[instr]] = typeAssert(fr.i, instr, fr.get(instr.X).(iface))
 
 	case *ssa.MakeClosure:
 		var bindings []value
 		for _, binding := range instr.Bindings {
 			bindings = append(bindings, fr.get(binding))
 		}
-		fr.env[instr] = &closure{instr.Fn.(*ssa.Function), bindings}
+		fr.env[fr.slots[instr]] = &closure{instr.Fn.(*ssa.Function), bindings}
 
 	case *ssa.Phi:
 		log.Fatal("unreachable") // phis are processed at block entry
 
 	case *ssa.Select:
-		fr.env[instr] = fr.i.doSelect(fr, instr)
+		fr.env[fr.slots[instr]] = fr.i.doSelect(fr, instr)
 
 	default:
 		panic(fmt.Sprintf("unexpected instruction: %T", instr))
@@ -493,18 +495,19 @@ func callSSA(i *interpreter, caller *frame, callpos token.Pos, fn *ssa.Function,
 		panic("interp requires ssa.BuilderMode to include InstantiateGenerics to execute generics")
 	}
 
-	fr.env = make(map[ssa.Value]value)
+	fr.slots = i.p.slotsOf(fn)
+	fr.env = make([]value, len(fr.slots))
 	fr.block = fn.Blocks[0]
 	fr.locals = make([]value, len(fn.Locals))
 	for i, l := range fn.Locals {
 		fr.locals[i] = zero(mustDeref(l.Type()))
-		fr.env[l] = &fr.locals[i]
+		fr.env[fr.slots[l]] = &fr.locals[i]
 	}
 	for i, p := range fn.Params {
-		fr.env[p] = args[i]
+		fr.env[fr.slots[p]] = args[i]
 	}
 	for i, fv := range fn.FreeVars {
-		fr.env[fv] = env[i]
+		fr.env[fr.slots[fv]] = env[i]
 	}
 	for fr.block != nil {
 		runFrame(fr)
@@ -552,10 +555,14 @@ func runFrame(fr *frame) {
 		case string:
 			panic(engineError{fmt.Sprintf("engine panic in %s: %v", fr.fn, r)})
 		case targetRuntimePanic, targetPanic:
-			if fr.i.panicSite == "" && fr.cur != nil {
-				pos := fr.i.prog.Fset.Position(fr.cur.Pos())
-				fr.i.panicSite = shortFn(fr.fn.String())
-				fr.i.panicPos = fmt.Sprintf("%s:%d", shortPath(pos.Filename), pos.Line)
+			if fr.cur != nil && (fr.i.panicSite == "" || !fr.i.panicInIce) {
+				inIce := fr.fn.Pkg == fr.i.p.icePkg || (fr.fn.Parent() != nil && fr.fn.Parent().Pkg == fr.i.p.icePkg)
+				if fr.i.panicSite == "" || inIce {
+					pos := fr.i.prog.Fset.Position(fr.cur.Pos())
+					fr.i.panicSite = shortFn(fr.fn.String())
+					fr.i.panicPos = fmt.Sprintf("%s:%d", shortPath(pos.Filename), pos.Line)
+					fr.i.panicInIce = inIce
+				}
 			}
 		}
 		fr.panicking = true
@@ -623,7 +630,7 @@ func executePhis(fr *frame) []ssa.Instruction {
 			fr.phitemps = append(fr.phitemps, fr.get(phi.Edges[predIndex]))
 		}
 		for i, phi := range phis {
-			fr.env[phi.(*ssa.Phi)] = fr.phitemps[i]
+			fr.env[fr.slots[phi.(*ssa.Phi)]] = fr.phitemps[i]
 		}
 	}
 	return nonPhis
@@ -639,7 +646,7 @@ func doRecover(caller *frame) value {
 		caller != nil && !caller.panicking &&
 		caller.caller != nil && caller.caller.panicking {
 		caller.caller.panicking = false
-		caller.i.panicSite, caller.i.panicPos = "", ""
+		caller.i.panicSite, caller.i.panicPos, caller.i.panicInIce = "", "", false
 		p := caller.caller.panic
 		caller.caller.panic = nil
 
